@@ -1315,11 +1315,11 @@ class ModelQuerySet(AbstractQuerySet):
                 val = col.validate(val)
 
             if val is None:
-                nulled_columns.add(col_name)
+                nulled_columns.add(col.db_field_name)
                 continue
 
             us.add_update(col, val, operation=col_op)
-            updated_columns.add(col_name)
+            updated_columns.add(col.db_field_name)
 
         if us.assignments:
             self._execute(us)
